@@ -1,0 +1,190 @@
+//go:build verif
+
+package sftp
+
+import (
+	"fmt"
+	"sync"
+)
+
+// Trace points for the /verif machinery (build tag "verif" only). The components whose models are labelled transition
+// systems report the events those models are made of; /verif replays every recorded trace on the model.
+// All events are appended under one mutex.
+//
+// Packet manager (coq/Sched/PktMgr.v), events reported when the goroutine is about to perform (A, D, F, E) or has just
+// performed (Q, R) the action:
+//
+//	A<oid>     recv loop: newOrderID
+//	D<oid><k>  dispatcher goroutine: about to call incomingPacket (after working.Wait() for a CLOSE);
+//	           k: r = READ/WRITE, c = CLOSE, x = anything else
+//	F<oid>     a worker: readyPacket entered
+//	Q<oid>     controller: received from s.requests
+//	R<oid>     controller: received from s.responses
+//	E<oid>     controller: about to send the response
+//
+// Client connection (coq/Conn/ClientConn.v); P, g and B are reported inside the clientConn mutex, so their order is
+// the order of the critical sections:
+//
+//	P<sid>+ / P<sid>-  putChannel registered the channel / found the connection closed
+//	S<sid>-            dispatchRequest: conn.sendPacket returned an error (a successful send is not reported)
+//	g<sid>+ / g<sid>-  getChannel found / did not find the id (called by recv and by dispatchRequest after S-)
+//	B0+                broadcastErr entered
+//	T<sid>o / T<sid>l / T<sid>e  the caller took its result: a reply / ErrSSHFxConnectionLost / another error
+//
+// Allocator (coq/Sched/Alloc.v), inside the allocator mutex; pages are numbered in order of first appearance:
+//
+//	G<oid>p<n>  GetPage(oid) returned page n
+//	L<oid>      ReleasePages(oid)
+//	X0          Free()
+
+var (
+	verifMu    sync.Mutex
+	verifOn    bool
+	verifPMLog = map[*packetManager][]string{}
+	verifCCLog = map[*clientConn][]string{}
+	verifALLog = map[*allocator][]string{}
+	verifALPg  = map[*allocator]map[*byte]int{}
+	verifALN   = map[*allocator]int{} // pages numbered so far (survives Free: a freed page's address may be reused)
+)
+
+func verifPM(s *packetManager, ev byte, oid uint32, p requestPacket) {
+	verifMu.Lock()
+	defer verifMu.Unlock()
+	if !verifOn {
+		return
+	}
+	e := fmt.Sprintf("%c%d", ev, oid)
+	if ev == 'D' {
+		switch p.(type) {
+		case *sshFxpReadPacket, *sshFxpWritePacket:
+			e += "r"
+		case *sshFxpClosePacket:
+			e += "c"
+		default:
+			e += "x"
+		}
+	}
+	verifPMLog[s] = append(verifPMLog[s], e)
+}
+
+func verifCC(c *clientConn, ev byte, sid uint32, ok bool, err error) {
+	verifMu.Lock()
+	defer verifMu.Unlock()
+	if !verifOn {
+		return
+	}
+	suffix := "-"
+	if ok {
+		suffix = "+"
+	}
+	if ev == 'T' {
+		switch {
+		case err == nil:
+			suffix = "o"
+		case err == ErrSSHFxConnectionLost:
+			suffix = "l"
+		default:
+			suffix = "e"
+		}
+	}
+	verifCCLog[c] = append(verifCCLog[c], fmt.Sprintf("%c%d%s", ev, sid, suffix))
+}
+
+func verifAL(a *allocator, ev byte, oid uint32, page []byte) {
+	verifMu.Lock()
+	defer verifMu.Unlock()
+	if !verifOn {
+		return
+	}
+	e := fmt.Sprintf("%c%d", ev, oid)
+	if ev == 'G' {
+		m := verifALPg[a]
+		if m == nil {
+			m = map[*byte]int{}
+			verifALPg[a] = m
+		}
+		k := &page[:1][0]
+		n, seen := m[k]
+		if !seen {
+			n = verifALN[a]
+			verifALN[a] = n + 1
+			m[k] = n
+		}
+		e += fmt.Sprintf("p%d", n)
+	}
+	if ev == 'X' {
+		delete(verifALPg, a)
+	}
+	verifALLog[a] = append(verifALLog[a], e)
+}
+
+// VerifTraceEnable switches event recording on or off (and forgets what was recorded when switched off).
+func VerifTraceEnable(on bool) {
+	verifMu.Lock()
+	defer verifMu.Unlock()
+	verifOn = on
+	if !on {
+		verifPMLog = map[*packetManager][]string{}
+		verifCCLog = map[*clientConn][]string{}
+		verifALLog = map[*allocator][]string{}
+		verifALPg = map[*allocator]map[*byte]int{}
+		verifALN = map[*allocator]int{}
+	}
+}
+
+func verifPMOf(s any) *packetManager {
+	switch v := s.(type) {
+	case *Server:
+		if v != nil {
+			return v.pktMgr
+		}
+	case *RequestServer:
+		if v != nil {
+			return v.pktMgr
+		}
+	}
+	return nil
+}
+
+// VerifPMTrace returns a copy of the packet manager events of a *Server / *RequestServer recorded so far.
+func VerifPMTrace(s any) []string {
+	pm := verifPMOf(s)
+	verifMu.Lock()
+	defer verifMu.Unlock()
+	return append([]string(nil), verifPMLog[pm]...)
+}
+
+// VerifALTrace returns a copy of the allocator events of a *Server / *RequestServer recorded so far together with the
+// allocator's counts of used and available pages at that very moment (ok is false without allocator).
+func VerifALTrace(s any) (events []string, used, available int, ok bool) {
+	pm := verifPMOf(s)
+	if pm == nil || pm.alloc == nil {
+		return nil, 0, 0, false
+	}
+	a := pm.alloc
+	a.Lock()
+	defer a.Unlock()
+	for _, p := range a.used {
+		used += len(p)
+	}
+	available = len(a.available)
+	verifMu.Lock()
+	defer verifMu.Unlock()
+	return append([]string(nil), verifALLog[a]...), used, available, true
+}
+
+// VerifCCTrace returns a copy of the connection events of a *Client recorded so far.
+func VerifCCTrace(c *Client) []string {
+	verifMu.Lock()
+	defer verifMu.Unlock()
+	return append([]string(nil), verifCCLog[&c.clientConn]...)
+}
+
+// VerifDispatchHeld registers one LSTAT request whose result channel is unbuffered: when the connection dies, the
+// receiver's broadcast blocks on it, inside its critical section, until wait() is called. wait returns the error the
+// request was failed with.
+func VerifDispatchHeld(c *Client) (wait func() error) {
+	ch := make(chan result)
+	c.dispatchRequest(ch, &sshFxpLstatPacket{ID: c.nextID(), Path: "held"})
+	return func() error { r := <-ch; return r.err }
+}
